@@ -39,6 +39,7 @@ PROPERTY C03_Green
 PROPERTY C08_FF
 PROPERTY C08_Foreign
 PROPERTY C20_EntryFate
+PROPERTY C19_DeclineCleans
 PROPERTY C06_Gate
 PROPERTY C04_Gate
 PROPERTY C15_ManualKept
